@@ -82,6 +82,10 @@ private:
 	// set while the connection to the origin is being established
 	bool m_connecting;
 
+	// set while an accept is outstanding: no client is being served, and what
+	// still completes belongs to the previous one
+	bool m_accepting;
+
 	// the origin the requests of the current client connection go to. The
 	// host is empty until the first request has been seen
 	std::string m_origin_host;
